@@ -84,7 +84,7 @@ class Rule_LT08(BaseRule):
             )
 
             # Work forward to map out the following segments.
-            while (
+            while seg_idx < len(forward_slice) and (
                 forward_slice[seg_idx].is_type("comma")
                 or not forward_slice[seg_idx].is_code
             ):
@@ -105,6 +105,11 @@ class Rule_LT08(BaseRule):
                     comma_line_idx = line_idx
                     comma_seg_idx = seg_idx
                 seg_idx += 1
+
+            # If nothing follows the bracket (e.g. the main query of the
+            # statement is itself bracketed), this bracket doesn't close a CTE.
+            if seg_idx >= len(forward_slice):
+                continue
 
             # Check if the next code segment is CYCLE or SEARCH
             # These are part of the CTE definition itself (PostgreSQL),
